@@ -359,7 +359,46 @@ def r6_duration(ctx):
     ctx.floor('paths of calculate_duration', n, 2)
 
 
+def r7_busy_formula(ctx):
+    """shape of the transmission time: size*8/bitrate computed in floating point from the unscaled operands"""
+    ctx.set_rule('C07.R7')
+    f = ctx.anchor(CH + 'ChannelMetrics::calculate_busy')
+    if not f:
+        return
+    n = 0
+    for path, outcome, decs in fn_paths(ctx, f):
+        if outcome != 'return':
+            continue
+        n += 1
+        atoms = [a for _, a in path_atoms(f, path, decs)]
+        zero = any(a[0] == 'cmp' and a[1] == 'eq' and any(x[0] == 'field' and x[2] == 'bitrate' for x in walk(a[2])) and a[3] == ('int', 0) for a in atoms)
+        r = path_ret(f, path)
+        if zero:
+            ctx.check(r is not None and 'ZERO' in show(r), 'busy-zero-bitrate', 'a channel without bitrate has zero transmission time', f.where_path(path), show(r) if r else None)
+            continue
+        ok = False
+        detail = show(r)[:200] if r else None
+        if r and r[0] == 'call' and r[1].endswith('Duration::from_secs_f64'):
+            q = peel(r[2][0])
+            if q[0] == 'bin' and q[1] == 'Div':
+                num, den = peel(q[2]), peel(q[3])
+                def unfloat(t):
+                    return peel(t[2]) if t[0] == 'cast' and t[1] == 'IntToFloat' else None
+                nu, de = unfloat(num), unfloat(den)
+                if nu is not None and de is not None:
+                    if nu[0] == 'field' and nu[1][0] == 'bin':
+                        nu = ('bin', nu[1][1].replace('WithOverflow', ''), nu[1][2], nu[1][3])
+                    bits = nu[0] == 'bin' and nu[1] == 'Mul' and {True} == {True for x in (nu[2], nu[3]) if x == ('int', 8)} and \
+                        any(peel(x)[0] == 'call' and peel(x)[1] == MSG + '::length' for x in (nu[2], nu[3]))
+                    rate = de[0] == 'field' and de[2] == 'bitrate'
+                    ok = bits and rate
+        ctx.check(ok, 'busy-formula', 'transmission time = (message length in bytes * 8) / bitrate, divided in floating point from the unscaled integers (no integer division that would round the rate)',
+                  f.where_path(path), detail)
+    ctx.floor('paths of calculate_busy', n, 2)
+
+
 def run(ctx):
+    r7_busy_formula(ctx)
     r1_conservation(ctx)
     r2_admission(ctx)
     r3_byte_accounting(ctx)
